@@ -346,6 +346,7 @@ MAX_ROUNDS = 6
 def run_job(args):
     """Worker entry: (module_name, sub_name, shard, tier, seed, known_sigs, n_override)."""
     modname, subname, shard, tier, seed, known_sigs, n_override = args
+    warnings.filterwarnings("ignore", message="Generating overly large repr")
     t0 = time.time()
     res = JobResult()
     res.known_sigs = set(known_sigs)
